@@ -312,7 +312,14 @@ def drive_c09(item, rec):
                 k = cl["k"]
                 if k == "pfba":
                     kw = {"fraction_of_optimum": cl["num"] / cl["den"]}
-                    if cl["useobj"]:
+                    if cl.get("hist", "none") == "fixobj":
+                        # history: the old objective was fixed as a constraint, then the objective was
+                        # edited in place (same objective object, same constraint name)
+                        from cobra.util.solver import fix_objective_as_constraint
+                        fix_objective_as_constraint(model)
+                        for r in range(n):
+                            rxns[r].objective_coefficient = cl["objc"][r]
+                    elif cl["useobj"]:
                         kw["objective"] = {rxns[r]: cl["objc"][r] for r in range(n) if cl["objc"][r]}
                     if not all(cl["sub"]):
                         sel = [rxns[r] if (r + j) % 2 else ids[r] for r in range(n) if cl["sub"][r]]
@@ -779,7 +786,7 @@ def validate(traces, wd, tag, max_events=6000):
 def _c09_call(k, ko, ref, refobj, **kw):
     n = len(ko)
     c = {"k": k, "ko": ko, "ref": ref, "refgiven": True, "refobj": refobj, "num": 1, "den": 1, "delta": 0, "eps": 0,
-         "useobj": False, "objc": kw.pop("c"), "sub": [1] * n}
+         "useobj": False, "objc": kw.pop("c"), "sub": [1] * n, "hist": "none"}
     c.update(kw)
     return c
 
